@@ -298,6 +298,15 @@ func (s *scen) rangeActs(b int, n int) {
 		ok, msg := safely(func() { cnt = ib.RangeActivity(s.keyOf(org), s.keyOf(end)) })
 		s.tr.Emit(vh.E("RangeAct", "b", b, "org", org, "end", end, "n", cnt, "ok", ok, "msg", msg))
 		stats["rangeacts"]++
+		// RangeApproxDelta: adds minus deletes in the range (logged as the two counts' difference + 100000
+		// would lose the sign in naturals, so the driver logs plus and minus separately via the sign)
+		delta := 0
+		ok, msg = safely(func() { delta = ib.RangeApproxDelta(iface.Range{Org: s.keyOf(org), End: s.keyOf(end)}) })
+		neg := 0
+		if delta < 0 {
+			neg, delta = 1, -delta
+		}
+		s.tr.Emit(vh.E("RangeDelta", "b", b, "org", org, "end", end, "abs", delta, "neg", neg, "ok", ok, "msg", msg))
 	}
 }
 
